@@ -55,7 +55,7 @@ Definition select_object_values_w (bs : list N) (off : N) : res (list position) 
   if negb (hdr_type h =? OBJECT_CONTAINER_TAG) || (len =? 0) then Ok [] else
   do kws <- rd_words_res bs len (off + 4);
   do vws <- rd_words_res bs len (off + 4 + 4 * len);
-  Ok (val_positions vws (off + 4 + len * 8 + sum_je_len kws)).
+  Ok (val_positions vws (SOV_OFF off len + sum_je_len kws)).      (* generated from select_object_values *)
 
 (* select_array_values: a non-array passes through as it is (lax mode) *)
 Definition select_array_values_w (bs : list N) (off length : N) : res (list position) :=
@@ -63,7 +63,7 @@ Definition select_array_values_w (bs : list N) (off length : N) : res (list posi
   if negb (hdr_type h =? ARRAY_CONTAINER_TAG) then Ok [PosC off length] else
   let len := hdr_len h in
   do vws <- rd_words_res bs len (off + 4);
-  Ok (val_positions vws (off + 4 + len * 4)).
+  Ok (val_positions vws (SAV_OFF off len)).                       (* generated from select_array_values *)
 
 (* select_by_name, first loop: every key entry advances the offset; a key of the right length is sliced and compared
    until one is found.  (final offset, index of the first key equal to name) *)
@@ -93,7 +93,7 @@ Definition select_by_name_w (bs : list N) (off : N) (name : list N) : res (list 
   if negb (hdr_type h =? OBJECT_CONTAINER_TAG) || (len =? 0) then Ok [] else
   do kws <- rd_words_res bs len (off + 4);
   do vws <- rd_words_res bs len (off + 4 + 4 * len);
-  do (voff, found) <- name_scan bs name kws 0 (off + 4 + len * 8) None;
+  do (voff, found) <- name_scan bs name kws 0 (SBN_OFF off len) None;      (* generated from select_by_name *)
   match found with
   | None => Ok []
   | Some idx => Ok (pick_val vws 0 idx voff)
@@ -102,10 +102,10 @@ Definition select_by_name_w (bs : list N) (off : N) (name : list N) : res (list 
 (* convert_index / convert_slice say Some(non-empty) exactly when: *)
 Definition index_nonempty (len : Z) (a : array_index) : bool :=
   match a with
-  | AIndex i => let j := resolve_index i len in ((0 <=? j) && (j <? len))%Z
+  | AIndex i => let j := resolve_index i len in CI_INRANGE j len
   | ASlice s e =>
-      let s' := resolve_index s len in let e' := resolve_index e len in
-      negb ((e' <? s') || (len <=? s') || (e' <? 0))%Z
+      let s' := resolve_start s len in let e' := resolve_end e len in
+      negb (CS_EMPTY s' e' len)
   end.
 (* offsets.push(offset); offset += jlength *)
 Fixpoint offsets_of (ws : list N) (off : N) : list N :=
@@ -129,7 +129,7 @@ Definition select_by_indices_w (bs : list N) (off : N) (ixs : list array_index) 
   if negb (hdr_type h =? ARRAY_CONTAINER_TAG) || (len =? 0) then Ok [] else
   if negb (existsb (index_nonempty (Z.of_N len)) ixs) then Ok [] else
   do ws <- rd_words_res bs len (off + 4);
-  pick_indices ws (offsets_of ws (off + 4 + len * 4)) (flat_map (index_positions (Z.of_N len)) ixs).
+  pick_indices ws (offsets_of ws (SBI_OFF off len)) (flat_map (index_positions (Z.of_N len)) ixs).   (* SBI_OFF: generated *)
 
 (* select_path *)
 Definition select_path_w (bs : list N) (off length : N) (p : path) : res (list position) :=
@@ -244,12 +244,13 @@ Fixpoint array_loop_w (bs : list N) (poses : list position) (data : list N) (jof
         | PosC off len => do p <- slice_p bs off len; Ok (data ++ p, N.lor CONTAINER_TAG (u32 len))
         | PosS ty off len => do p <- (if 0 <? len then slice_p bs off len else Ok []); Ok (data ++ p, N.lor ty (u32 len))
         end;
-      array_loop_w bs r (patch data1 joff (be32 jentry)) (joff + 4)
+      array_loop_w bs r (patch data1 joff (be32 jentry)) (joff + N.to_nat BSA_JSTEP)      (* jentry_offset += ..: generated *)
   end.
 Definition build_scalar_array_w (bs : list N) (poses : list position) (data : list N) : res (list N * list N) :=
   let data1 := data ++ be32 (N.lor ARRAY_CONTAINER_TAG (u32 (lenN poses))) in
   let joff := length data1 in
-  do data' <- array_loop_w bs poses (data1 ++ repeat 0 (4 * length poses)) joff;
+  (* data.resize(BSA_RESERVE jentry_offset len, 0): the new length is generated from the source, the zeros appended are the difference *)
+  do data' <- array_loop_w bs poses (data1 ++ repeat 0 (N.to_nat (BSA_RESERVE (N.of_nat joff) (lenN poses)) - joff)) joff;
   Ok (data', [lenN data']).
 (* build_predicate_result *)
 Definition build_predicate_result_w (poses : list position) (data : list N) : list N :=
